@@ -2,6 +2,14 @@ package main
 
 // T1 facts for C19 (shutdown): regenerated into lean/Ibx/Gen/Shutdown.lean.
 //
+// All facts are STRUCTURAL (see the rt toolkit in retention.go): things with unexported names are found through
+// anchors — the WaitGroup field is "a struct field of type sync.WaitGroup", serve is "what Start's go statement
+// runs", the session function is "what the go statement of the accept loop runs", the listener field is "what
+// Accept() is called on", the connection is "the net.Conn parameter", the context is "the context.Context
+// parameter", the hub's operation channel is "the field Hub.Start receives from beside ctx.Done()", its done
+// channel "the field closed in that ctx.Done() case", the producers are "the functions that send on the
+// operation channel".  Unexported helpers are followed as if inlined; conditions are compared as path conditions.
+//
 //   <srv>_wgAdd            where `s.wg.Add(1)` sits relative to the `go` statement of serve():
 //                          beforeSpawn | inSessionGoroutine | both | unknown   (srv = smtp, pop3)
 //   <srv>_serveCounted     is the serve() goroutine itself counted in the WaitGroup (Add in Start)?
@@ -112,129 +120,314 @@ func selectHasDefault(sel *ast.SelectStmt) bool {
 	return false
 }
 
-// wgFacts classifies one server package.
-func wgFacts(g *genFile, srv string) {
-	lf := parse("pkg/server/" + srv + "/listener.go")
-	hf := parse("pkg/server/" + srv + "/handler.go")
-	serve := fn(lf, "Server", "serve")
-	start := fn(lf, "Server", "Start")
-	drain := fn(lf, "Server", "Drain")
-	sess := fn(hf, "Server", "startSession")
+// ---- structural helpers (sd*)
 
-	fact := "unknown"
-	why := ""
-	func() {
-		if serve == nil || sess == nil {
-			why = "serve or startSession not found"
-			return
-		}
-		// the unique go statement of serve and the block that holds it
-		var goStmt *ast.GoStmt
-		var holder *ast.BlockStmt
-		nGo := 0
-		ast.Inspect(serve.Body, func(x ast.Node) bool {
-			if b, ok := x.(*ast.BlockStmt); ok {
-				for _, st := range b.List {
-					if gs, ok := st.(*ast.GoStmt); ok {
-						nGo++
-						goStmt, holder = gs, b
+// sdFieldsOfType: names of struct fields of the package whose type is pkg.Name or *pkg.Name.
+func sdFieldsOfType(p *rtPkg, pkg, name string) map[string]bool {
+	res := map[string]bool{}
+	for _, f := range p.files {
+		ast.Inspect(f, func(x ast.Node) bool {
+			st, ok := x.(*ast.StructType)
+			if !ok || st.Fields == nil {
+				return true
+			}
+			for _, fl := range st.Fields.List {
+				t := fl.Type
+				if s, ok := t.(*ast.StarExpr); ok {
+					t = s.X
+				}
+				if rtIsPkgSel(t, pkg, name) {
+					for _, n := range fl.Names {
+						res[n.Name] = true
 					}
 				}
 			}
 			return true
 		})
-		if nGo != 1 {
-			why = fmt.Sprintf("%d go statements in serve", nGo)
+	}
+	return res
+}
+
+// sdFieldCall: ce is <anything>.<field in fields>.<method>(…).
+func sdFieldCall(ce *ast.CallExpr, fields map[string]bool, method string) bool {
+	se, ok := rtUnparen(ce.Fun).(*ast.SelectorExpr)
+	if !ok || se.Sel.Name != method {
+		return false
+	}
+	in, ok := rtUnparen(se.X).(*ast.SelectorExpr)
+	return ok && fields[in.Sel.Name]
+}
+
+func sdStmtFieldCall(s ast.Stmt, fields map[string]bool, method string) bool {
+	es, ok := s.(*ast.ExprStmt)
+	if !ok {
+		return false
+	}
+	ce, ok := es.X.(*ast.CallExpr)
+	return ok && sdFieldCall(ce, fields, method)
+}
+
+// sdCountFieldCalls: lexical count (function literals included) of <..>.<field>.<one of methods>() calls.
+func sdCountFieldCalls(n ast.Node, fields map[string]bool, methods ...string) int {
+	c := 0
+	if n == nil {
+		return 0
+	}
+	ast.Inspect(n, func(x ast.Node) bool {
+		if ce, ok := x.(*ast.CallExpr); ok {
+			for _, m := range methods {
+				if sdFieldCall(ce, fields, m) {
+					c++
+				}
+			}
+		}
+		return true
+	})
+	return c
+}
+
+func sdSamePc(a, b []rtAtom) bool {
+	if len(a) != len(b) {
+		return false
+	}
+	for i := range a {
+		if a[i].cond != b[i].cond || a[i].pos != b[i].pos || a[i].comm != b[i].comm || a[i].opaque != b[i].opaque {
+			return false
+		}
+	}
+	return true
+}
+
+func sdPrefixPc(a, b []rtAtom) bool { return len(a) <= len(b) && sdSamePc(a, b[:len(a)]) }
+
+// sdGoTarget: the package function a go statement runs: `go f(..)` / `go x.m(..)` directly, or the unique
+// package function called (lexically) inside `go func(..){..}(..)`.  Returns the function literal too.
+func sdGoTarget(p *rtPkg, gs *ast.GoStmt) (*ast.FuncDecl, *ast.FuncLit, *ast.CallExpr) {
+	if fl, ok := gs.Call.Fun.(*ast.FuncLit); ok {
+		var hit *ast.FuncDecl
+		var call *ast.CallExpr
+		n := 0
+		for _, ce := range rtCalls(fl.Body) {
+			if fd, _ := p.helper(ce); fd != nil {
+				hit, call = fd, ce
+				n++
+			}
+		}
+		if n != 1 {
+			return nil, fl, nil
+		}
+		return hit, fl, call
+	}
+	fd, _ := p.helper(gs.Call)
+	return fd, nil, gs.Call
+}
+
+// sdDeferDones: how many <wg>.Done() a defer statement runs: directly, or as top-level statements of a deferred
+// function literal; -1 when a Done hides deeper inside it.
+func sdDeferDones(d *ast.DeferStmt, wg map[string]bool) int {
+	if sdFieldCall(d.Call, wg, "Done") {
+		return 1
+	}
+	fl, ok := d.Call.Fun.(*ast.FuncLit)
+	if !ok {
+		return 0
+	}
+	n := 0
+	for _, s := range fl.Body.List {
+		if sdStmtFieldCall(s, wg, "Done") {
+			n++
+		}
+	}
+	if sdCountFieldCalls(fl.Body, wg, "Done") != n {
+		return -1
+	}
+	return n
+}
+
+// sdWgFacts classifies one server package.
+func sdWgFacts(g *genFile, srv string) {
+	p := rtLoadPkg("pkg/server/" + srv)
+	start := p.method("Server", "Start")
+	drain := p.method("Server", "Drain")
+	wg := sdFieldsOfType(p, "sync", "WaitGroup")
+
+	// serve = what the unique go statement of Start runs
+	var serve *ast.FuncDecl
+	var sw *rtWalk
+	startGo := -1
+	if start != nil {
+		sw = rtWalkBody(p, start.Body, nil)
+		n := 0
+		for i, l := range sw.leaves {
+			if gs, ok := l.st.(*ast.GoStmt); ok {
+				n++
+				startGo = i
+				serve, _, _ = sdGoTarget(p, gs)
+			}
+		}
+		if n != 1 {
+			serve, startGo = nil, -1
+		}
+	}
+	var sv *rtWalk
+	if serve != nil {
+		sv = rtWalkBody(p, serve.Body, nil)
+	}
+	// the session function = what the unique go statement of the accept loop runs
+	var sess *ast.FuncDecl
+	var wrapper *ast.FuncLit
+	var sessCall *ast.CallExpr
+	var sessGo *ast.GoStmt
+	goIdx := -1
+	listenerField := ""
+	if sv != nil {
+		n := 0
+		for i, l := range sv.leaves {
+			if gs, ok := l.st.(*ast.GoStmt); ok {
+				n++
+				goIdx, sessGo = i, gs
+				sess, wrapper, sessCall = sdGoTarget(p, gs)
+			}
+			for _, ce := range rtCalls(l.scope()) {
+				if rtCallName(ce) == "Accept" && len(ce.Args) == 0 {
+					if se, ok := rtUnparen(ce.Fun).(*ast.SelectorExpr); ok {
+						listenerField = p.field(se.X, l.env)
+					}
+				}
+			}
+		}
+		if n != 1 {
+			sess, goIdx = nil, -1
+		}
+		if listenerField == "" {
+			sess = nil // the goroutine Start spawns is not an accept loop
+		}
+	}
+	var ss *rtWalk
+	if sess != nil {
+		ss = rtWalkBody(p, sess.Body, nil)
+	}
+
+	fact := "unknown"
+	why := ""
+	doneInServe := 0
+	func() {
+		if sv == nil || ss == nil {
+			why = "accept loop (go statement of Start running a function that calls Accept()) or session function (go statement of that loop) not found"
 			return
 		}
-		before, after := 0, 0
-		seen := false
-		for _, st := range holder.List {
-			if st == ast.Stmt(goStmt) {
-				seen = true
-				continue
-			}
-			if stmtIsCall(st, "s.wg.Add") {
-				if seen {
-					after++
-				} else {
-					before++
+		goLeaf := sv.leaves[goIdx]
+		before, bad := 0, 0
+		for i, l := range sv.leaves {
+			switch v := l.st.(type) {
+			case *ast.ExprStmt:
+				if sdStmtFieldCall(v, wg, "Add") {
+					sameLoop := len(l.loops) == len(goLeaf.loops) && (len(l.loops) == 0 || l.loops[len(l.loops)-1] == goLeaf.loops[len(goLeaf.loops)-1])
+					if i < goIdx && sdPrefixPc(l.pc, goLeaf.pc) && sameLoop {
+						before++
+					} else {
+						bad++
+					}
+				} else if sdStmtFieldCall(v, wg, "Done") {
+					bad++
+				}
+			case *ast.DeferStmt:
+				d := sdDeferDones(v, wg)
+				switch {
+				case d < 0:
+					bad++
+				case d > 0 && len(l.pc) == 0 && len(l.loops) == 0:
+					doneInServe += d
+				case d > 0:
+					bad++
 				}
 			}
 		}
-		// every Add of serve must be one of those (none hidden in another block)
-		insideWrapper, wrapperDones, callsSession := 0, 0, false
-		switch f := goStmt.Call.Fun.(type) {
-		case *ast.SelectorExpr:
-			callsSession = src(f) == "s.startSession"
-		case *ast.FuncLit:
-			for _, st := range f.Body.List {
+		insideWrapper, wrapperDones := 0, 0
+		if wrapper != nil {
+			// the literal's own statements only: the session function is analysed separately
+			for _, st := range wrapper.Body.List {
 				switch v := st.(type) {
-				case *ast.DeferStmt:
-					if isCall(v.Call, "s.wg.Done") {
-						wrapperDones++
-					}
 				case *ast.ExprStmt:
-					if isCall(v.X, "s.wg.Add") {
+					if sdStmtFieldCall(v, wg, "Add") {
 						insideWrapper++
+					} else if sdStmtFieldCall(v, wg, "Done") {
+						bad++
 					}
-					if isCall(v.X, "s.startSession") {
-						callsSession = true
+				case *ast.DeferStmt:
+					if d := sdDeferDones(v, wg); d < 0 {
+						bad++
+					} else {
+						wrapperDones += d
 					}
 				}
 			}
-			if countCalls(f.Body, "s.wg.Done") != wrapperDones || countCalls(f.Body, "s.wg.Add") != insideWrapper {
-				why = "wg call of the go wrapper not at its top level"
+			if sdCountFieldCalls(wrapper.Body, wg, "Add", "Done") != insideWrapper+wrapperDones {
+				why = "a WaitGroup call of the go wrapper is not one of its top-level statements"
 				return
 			}
 		}
-		if !callsSession {
-			why = "go statement does not start startSession"
-			return
-		}
-		totalServeAdds := countCalls(serve.Body, "s.wg.Add")
-		if after != 0 || totalServeAdds != before+insideWrapper {
-			why = "wg.Add of serve in an unexpected place"
-			return
-		}
-		// startSession: Adds must be top-level statements, Dones inside deferred function literals
-		sessAdds := 0
-		for _, st := range sess.Body.List {
-			if stmtIsCall(st, "s.wg.Add") {
-				sessAdds++
+		sessAdds, sessDones := 0, 0
+		for _, l := range ss.leaves {
+			switch v := l.st.(type) {
+			case *ast.ExprStmt:
+				if sdStmtFieldCall(v, wg, "Add") {
+					if len(l.pc) == 0 && len(l.loops) == 0 {
+						sessAdds++
+					} else {
+						bad++
+					}
+				} else if sdStmtFieldCall(v, wg, "Done") {
+					bad++
+				}
+			case *ast.DeferStmt:
+				d := sdDeferDones(v, wg)
+				switch {
+				case d < 0:
+					bad++
+				case d > 0 && len(l.pc) == 0 && len(l.loops) == 0:
+					sessDones += d
+				case d > 0:
+					bad++
+				}
 			}
 		}
-		sessDones := 0
-		for _, st := range sess.Body.List {
-			if d, ok := st.(*ast.DeferStmt); ok {
-				sessDones += countCalls(d.Call, "s.wg.Done")
+		// every WaitGroup call of these functions (and of the helpers followed from them) is one of the above
+		lex := 0
+		seen := map[*ast.FuncDecl]bool{}
+		for _, fd := range append([]*ast.FuncDecl{serve, sess}, func() []*ast.FuncDecl {
+			var r []*ast.FuncDecl
+			for fd := range sv.inlined {
+				r = append(r, fd)
+			}
+			for fd := range ss.inlined {
+				r = append(r, fd)
+			}
+			return r
+		}()...) {
+			if !seen[fd] {
+				seen[fd] = true
+				lex += sdCountFieldCalls(fd.Body, wg, "Add", "Done")
 			}
 		}
-		if countCalls(sess.Body, "s.wg.Add") != sessAdds || countCalls(sess.Body, "s.wg.Done") != sessDones {
-			why = "wg call of startSession not where expected (top-level Add / deferred Done)"
+		if bad != 0 || lex != before+insideWrapper+wrapperDones+sessAdds+sessDones+doneInServe {
+			why = fmt.Sprintf("a WaitGroup Add/Done of the accept loop or the session function is conditional, after the go statement, not deferred, or hidden (%d odd, %d written, %d understood)", bad, lex, before+insideWrapper+wrapperDones+sessAdds+sessDones+doneInServe)
 			return
 		}
-		// no other function of the package touches the WaitGroup counter
+		// no other function of the package touches the counter (Start is judged by serveCounted)
 		others := 0
-		for _, f := range []*ast.File{lf, hf} {
-			if f == nil {
-				continue
-			}
-			for _, d := range f.Decls {
-				fd, ok := d.(*ast.FuncDecl)
-				if !ok || fd == serve || fd == sess || fd.Body == nil {
+		for _, fds := range p.funcs {
+			for _, fd := range fds {
+				if seen[fd] || fd == start {
 					continue
 				}
-				others += countCalls(fd.Body, "s.wg.Add", "s.wg.Done", "s.Server.wg.Add", "s.Server.wg.Done")
+				others += sdCountFieldCalls(fd.Body, wg, "Add", "Done")
 			}
 		}
 		nb, ni := before, insideWrapper+sessAdds
 		nd := wrapperDones + sessDones
-		why = fmt.Sprintf("Add before go: %d, Add inside goroutine: %d, deferred Done: %d, wg calls elsewhere: %d", nb, ni, nd, others)
-		if others != 0 && !(others == 1 && start != nil && countCalls(start.Body, "s.wg.Add") == 1) {
-			return
-		}
-		if nd != nb+ni {
+		why = fmt.Sprintf("Add before go: %d, Add inside goroutine: %d, deferred Done: %d, WaitGroup calls in other functions: %d", nb, ni, nd, others)
+		if others != 0 || nd != nb+ni {
 			return
 		}
 		switch {
@@ -246,340 +439,441 @@ func wgFacts(g *genFile, srv string) {
 			fact = "both"
 		}
 	}()
-	g.def(srv+"_wgAdd", "String", leanStr(fact), "position of wg.Add(1) relative to the go statement of "+srv+".serve — "+why)
+	g.def(srv+"_wgAdd", "String", leanStr(fact), "where <WaitGroup field>.Add(1) sits relative to the go statement of the accept loop (beforeSpawn | inSessionGoroutine | both | unknown) — "+why)
 
-	// serveCounted: an Add in Start before `go s.serve(ctx)` matched by a deferred Done in serve
+	// serveCounted: an Add in Start that nothing separates from `go <serve>` (same path condition, earlier), matched
+	// by an unconditional deferred Done in serve; and no other WaitGroup call in Start
 	sc := "none"
-	if start != nil && serve != nil {
-		addInStart := countCalls(start.Body, "s.wg.Add")
-		doneInServe := 0
-		for _, st := range serve.Body.List {
-			if d, ok := st.(*ast.DeferStmt); ok && isCall(d.Call, "s.wg.Done") {
-				doneInServe++
+	if sw != nil && sv != nil && startGo >= 0 {
+		adds := 0
+		for i, l := range sw.leaves {
+			if sdStmtFieldCall(l.st, wg, "Add") && i < startGo && sdSamePc(l.pc, sw.leaves[startGo].pc) && len(l.loops) == 0 {
+				adds++
 			}
 		}
+		lex := sdCountFieldCalls(start.Body, wg, "Add", "Done")
 		switch {
-		case addInStart == 0 && doneInServe == 0:
+		case lex == 0 && doneInServe == 0:
 			sc = "some false"
-		case addInStart == 1 && doneInServe == 1:
+		case lex == 1 && adds == 1 && doneInServe == 1:
 			sc = "some true"
 		}
 	}
-	g.def(srv+"_serveCounted", "Option Bool", sc, "is the accept loop itself counted in the WaitGroup (Add in Start, deferred Done in serve)")
+	g.def(srv+"_serveCounted", "Option Bool", sc, "is the accept loop itself counted: one <WaitGroup>.Add in Start on the same path as (and before) the go statement, one unconditional deferred Done in the accept-loop function, no other WaitGroup call in Start (none = anything else)")
 
-	// closeBeforeDone: inside the deferred func of startSession, <conn>.Close() precedes s.wg.Done()
+	// closeBeforeDone: the deferred function of the session function closes the net.Conn parameter before Done
+	isConn := func(e ast.Expr, env *rtEnv) bool {
+		o := p.obj(e, env)
+		if o == nil {
+			return false
+		}
+		f, ok := o.Decl.(*ast.Field)
+		return ok && rtIsPkgSel(f.Type, "net", "Conn")
+	}
 	cbd := false
-	if sess != nil {
-		for _, st := range sess.Body.List {
-			d, ok := st.(*ast.DeferStmt)
+	if ss != nil {
+		closeDeferred, doneSeen, ordered := false, false, true
+		for _, l := range ss.leaves {
+			d, ok := l.st.(*ast.DeferStmt)
 			if !ok {
 				continue
 			}
-			fl, ok := d.Call.Fun.(*ast.FuncLit)
-			if !ok {
-				continue
-			}
-			closeAt, doneAt := -1, -1
-			for i, b := range fl.Body.List {
-				hasClose := false
-				ast.Inspect(b, func(x ast.Node) bool {
-					if ce, ok := x.(*ast.CallExpr); ok {
-						if se, ok := ce.Fun.(*ast.SelectorExpr); ok && se.Sel.Name == "Close" && strings.Contains(strings.ToLower(src(se.X)), "conn") {
-							hasClose = true
+			if fl, ok := d.Call.Fun.(*ast.FuncLit); ok {
+				fw := rtWalkBody(p, fl.Body, l.env)
+				closeAt, doneAt := -1, -1
+				for i, m := range fw.leaves {
+					for _, ce := range rtCalls(m.scope()) {
+						if rtCallName(ce) == "Close" && len(ce.Args) == 0 {
+							if se, ok := rtUnparen(ce.Fun).(*ast.SelectorExpr); ok && isConn(se.X, m.env) && closeAt < 0 && len(m.pc) == 0 {
+								closeAt = i
+							}
 						}
 					}
-					return true
-				})
-				if hasClose && closeAt < 0 {
-					closeAt = i
+					if sdStmtFieldCall(m.st, wg, "Done") && doneAt < 0 {
+						doneAt = i
+					}
 				}
-				if stmtIsCall(b, "s.wg.Done") && doneAt < 0 {
-					doneAt = i
+				if closeAt >= 0 {
+					closeDeferred = true
 				}
-			}
-			if closeAt >= 0 && doneAt > closeAt {
-				cbd = true
+				if doneAt >= 0 {
+					doneSeen = true
+					if !(closeAt >= 0 && closeAt < doneAt) {
+						ordered = false
+					}
+				}
+			} else {
+				if sdFieldCall(d.Call, wg, "Done") {
+					doneSeen, ordered = true, false // a bare deferred Done: order against the close not analysed
+				}
+				if rtCallName(d.Call) == "Close" {
+					if se, ok := rtUnparen(d.Call.Fun).(*ast.SelectorExpr); ok && isConn(se.X, l.env) {
+						closeDeferred = true
+					}
+				}
 			}
 		}
+		cbd = closeDeferred && ordered && (doneSeen || wrapper != nil)
 	}
-	g.def(srv+"_closeBeforeDone", "Bool", shutLeanBool(cbd), "startSession's deferred function closes the connection, then calls wg.Done()")
+	g.def(srv+"_closeBeforeDone", "Bool", shutLeanBool(cbd), "the session function closes its net.Conn parameter (or a once-assigned copy of it) in a deferred function, unconditionally and before the <WaitGroup>.Done() of that function")
 
-	// Start: `<-ctx.Done()` as a statement, later `s.listener.Close()`
+	// Start: `<-ctx.Done()` as a statement, later <listener field>.Close()
 	scl := false
-	if start != nil {
+	if sw != nil && listenerField != "" {
 		doneAt, closeAt := -1, -1
-		for i, st := range start.Body.List {
-			if es, ok := st.(*ast.ExprStmt); ok && isRecvOf(es.X, "ctx.Done()") {
+		for i, l := range sw.leaves {
+			if es, ok := l.st.(*ast.ExprStmt); ok && p.isDoneRecv(es, l.env) && len(l.loops) == 0 {
 				doneAt = i
 			}
-			if countCalls(st, "s.listener.Close") > 0 && closeAt < 0 {
-				closeAt = i
-			}
-		}
-		scl = doneAt >= 0 && closeAt > doneAt
-	}
-	g.def(srv+"_startClosesListenerAfterDone", "Bool", shutLeanBool(scl), "Start waits for ctx.Done() and then closes the listener")
-
-	srd := false
-	if serve != nil {
-		ast.Inspect(serve.Body, func(x ast.Node) bool {
-			if sel, ok := x.(*ast.SelectStmt); ok {
-				if cc := selectHasRecv(sel, "ctx.Done()"); cc != nil {
-					for _, b := range cc.Body {
-						if _, ok := b.(*ast.ReturnStmt); ok {
-							srd = true
-						}
+			for _, ce := range rtCalls(l.scope()) {
+				if rtCallName(ce) == "Close" && len(ce.Args) == 0 && closeAt < 0 {
+					if se, ok := rtUnparen(ce.Fun).(*ast.SelectorExpr); ok && p.field(se.X, l.env) == listenerField {
+						closeAt = i
 					}
 				}
 			}
-			return true
-		})
+		}
+		scl = doneAt >= 0 && closeAt > doneAt && sdSamePc(sw.leaves[doneAt].pc, sw.leaves[closeAt].pc)
 	}
-	g.def(srv+"_serveReturnsOnDone", "Bool", shutLeanBool(srd), "serve returns when Accept fails and ctx.Done() is readable")
+	g.def(srv+"_startClosesListenerAfterDone", "Bool", shutLeanBool(scl), "Start receives from <context.Context parameter>.Done() as a statement and then, on the same path, calls Close() on the field Accept() is called on")
+
+	srd := false
+	if sv != nil {
+		for _, l := range sv.leaves {
+			if _, ok := l.st.(*ast.ReturnStmt); !ok || l.owner != 0 {
+				continue
+			}
+			for _, a := range l.pc {
+				if a.comm != nil && a.comm.Comm != nil && p.isDoneRecv(a.comm.Comm, a.env) {
+					srd = true
+				}
+			}
+		}
+	}
+	g.def(srv+"_serveReturnsOnDone", "Bool", shutLeanBool(srd), "the accept loop returns inside a select case receiving from <context.Context parameter>.Done()")
 
 	diw := false
 	if drain != nil {
-		waits := countCalls(drain.Body, "s.wg.Wait")
-		other := 0
-		ast.Inspect(drain.Body, func(x ast.Node) bool {
-			switch v := x.(type) {
-			case *ast.UnaryExpr:
-				if v.Op == token.ARROW {
-					other++
-				}
-			case *ast.SendStmt, *ast.SelectStmt, *ast.ForStmt, *ast.RangeStmt, *ast.GoStmt:
-				other++
-			}
-			return true
-		})
-		diw = waits == 1 && other == 0
-	}
-	g.def(srv+"_drainIsWait", "Bool", shutLeanBool(diw), "Drain() = s.wg.Wait() (plus logging)")
-
-	// handler.go never mentions a context
-	mentions := hf == nil
-	if hf != nil {
-		for _, im := range hf.Imports {
-			if strings.Trim(im.Path.Value, "\"") == "context" {
-				mentions = true
+		dw := rtWalkBody(p, drain.Body, nil)
+		ws := p.waits(dw.leaves, nil)
+		odd := 0
+		for _, l := range dw.leaves {
+			switch l.st.(type) {
+			case *ast.ForStmt, *ast.RangeStmt, *ast.GoStmt:
+				odd++
 			}
 		}
-		ast.Inspect(hf, func(x ast.Node) bool {
-			if id, ok := x.(*ast.Ident); ok {
-				switch id.Name {
-				case "ctx", "context", "Context":
+		diw = len(ws) == 1 && ws[0].kind == "wgWait" && odd == 0 && sdCountFieldCalls(drain.Body, wg, "Wait") == 1 && !dw.unknown
+	}
+	g.def(srv+"_drainIsWait", "Bool", shutLeanBool(diw), "Drain's only blocking operation is one <WaitGroup field>.Wait(); no loop, no goroutine")
+
+	// the session program is not handed the cancellation context
+	mentions := sess == nil
+	if sess != nil {
+		var hf *ast.File
+		for _, f := range p.files {
+			for _, d := range f.Decls {
+				if d == ast.Decl(sess) {
+					hf = f
+				}
+			}
+		}
+		if hf == nil {
+			mentions = true
+		} else {
+			for _, im := range hf.Imports {
+				if strings.Trim(im.Path.Value, "\"") == "context" {
 					mentions = true
 				}
 			}
-			return true
-		})
+			ast.Inspect(hf, func(x ast.Node) bool {
+				if id, ok := x.(*ast.Ident); ok {
+					switch id.Name {
+					case "ctx", "context", "Context":
+						mentions = true
+					}
+				}
+				return true
+			})
+		}
+		if sess.Type.Params != nil {
+			for _, f := range sess.Type.Params.List {
+				if rtIsPkgSel(f.Type, "context", "Context") {
+					mentions = true
+				}
+			}
+		}
+		var args []ast.Expr
+		if sessGo != nil {
+			args = append(args, sessGo.Call.Args...)
+		}
+		if sessCall != nil {
+			args = append(args, sessCall.Args...)
+		}
+		for _, a := range args {
+			found := false
+			ast.Inspect(a, func(x ast.Node) bool {
+				if id, ok := x.(*ast.Ident); ok && id.Obj != nil {
+					if f, ok := id.Obj.Decl.(*ast.Field); ok && rtIsPkgSel(f.Type, "context", "Context") {
+						found = true
+					}
+				}
+				return true
+			})
+			if found {
+				mentions = true
+			}
+		}
 	}
-	g.def(srv+"_handlerMentionsCtx", "Bool", shutLeanBool(mentions), "pkg/server/"+srv+"/handler.go contains an identifier ctx/context/Context or imports \"context\"")
+	g.def(srv+"_handlerMentionsCtx", "Bool", shutLeanBool(mentions), "the session function takes a context.Context, or is started with an argument mentioning the context.Context parameter, or the file declaring it imports \"context\" / contains an identifier ctx, context or Context")
+}
+
+// sdChanField: e is <v>.F (v any variable); returns F.
+func sdChanField(e ast.Expr) string {
+	if e == nil {
+		return ""
+	}
+	se, ok := rtUnparen(e).(*ast.SelectorExpr)
+	if !ok {
+		return ""
+	}
+	if id, ok := rtUnparen(se.X).(*ast.Ident); !ok || id.Obj == nil {
+		return ""
+	}
+	return se.Sel.Name
+}
+
+func sdIsClose(s ast.Stmt) (string, bool) {
+	es, ok := s.(*ast.ExprStmt)
+	if !ok {
+		return "", false
+	}
+	ce, ok := es.X.(*ast.CallExpr)
+	if !ok || len(ce.Args) != 1 {
+		return "", false
+	}
+	id, ok := ce.Fun.(*ast.Ident)
+	if !ok || id.Name != "close" || id.Obj != nil {
+		return "", false
+	}
+	return sdChanField(ce.Args[0]), true
+}
+
+// sdSelectGuarded: the select has a case receiving from <v>.<done> and no default.
+func sdSelectGuarded(sel *ast.SelectStmt, done string) bool {
+	has := false
+	for _, c := range sel.Body.List {
+		cc := c.(*ast.CommClause)
+		if cc.Comm == nil {
+			return false
+		}
+		if ch := rtRecvChan(cc.Comm); ch != nil && done != "" && sdChanField(ch) == done {
+			has = true
+		}
+	}
+	return has
 }
 
 func extractShutdown() {
 	g := gen("Shutdown")
-	wgFacts(g, "smtp")
-	wgFacts(g, "pop3")
+	sdWgFacts(g, "smtp")
+	sdWgFacts(g, "pop3")
 
 	// ---- hub
-	hf := parse("pkg/msghub/hub.go")
-	hstart := fn(hf, "Hub", "Start")
-	henq := fn(hf, "Hub", "enqueue")
-	hsync := fn(hf, "Hub", "Sync")
+	hp := rtLoadPkg("pkg/msghub")
+	hstart := hp.method("Hub", "Start")
+	hsync := hp.method("Hub", "Sync")
 	onCancel := "unknown"
+	opField, doneField := "", ""
 	if hstart != nil {
-		var found []*ast.CommClause
-		ast.Inspect(hstart.Body, func(x ast.Node) bool {
-			if sel, ok := x.(*ast.SelectStmt); ok {
-				if cc := selectHasRecv(sel, "ctx.Done()"); cc != nil {
-					found = append(found, cc)
-				}
-			}
-			return true
-		})
-		if len(found) == 1 {
-			cOp, cDone, ret := 0, 0, false
-			for _, b := range found[0].Body {
-				if stmtIsCall(b, "close") {
-					switch src(b.(*ast.ExprStmt).X.(*ast.CallExpr).Args[0]) {
-					case "hub.opChan":
-						cOp++
-					case "hub.done":
-						cDone++
+		hw := rtWalkBody(hp, hstart.Body, nil)
+		// the select(s) of Start that have a ctx.Done() case
+		var sels []*rtLeaf
+		for i := range hw.leaves {
+			l := &hw.leaves[i]
+			if sel, ok := l.st.(*ast.SelectStmt); ok {
+				for _, c := range sel.Body.List {
+					if cc := c.(*ast.CommClause); cc.Comm != nil && hp.isDoneRecv(cc.Comm, l.env) {
+						sels = append(sels, l)
 					}
 				}
-				if _, ok := b.(*ast.ReturnStmt); ok {
-					ret = true
-				}
-			}
-			switch {
-			case ret && cOp == 1 && cDone == 0:
-				onCancel = "closesOpChan"
-			case ret && cOp == 0 && cDone == 1:
-				onCancel = "closesDone"
 			}
 		}
-	}
-	g.def("hub_onCancel", "String", leanStr(onCancel), "what Hub.Start does in `case <-ctx.Done():` before returning")
-	// close(hub.opChan) anywhere in the file
-	closesOp := 0
-	sendsTotal, sendsInGuardedSelect := 0, 0
-	if hf != nil {
-		ast.Inspect(hf, func(x ast.Node) bool {
-			if ce, ok := x.(*ast.CallExpr); ok && src(ce.Fun) == "close" && len(ce.Args) == 1 && strings.HasSuffix(src(ce.Args[0]), ".opChan") {
-				closesOp++
-			}
-			if ss, ok := x.(*ast.SendStmt); ok && strings.HasSuffix(src(ss.Chan), ".opChan") {
-				sendsTotal++
-			}
-			if sel, ok := x.(*ast.SelectStmt); ok && selectHasRecv(sel, "hub.done") != nil && !selectHasDefault(sel) {
-				for _, c := range sel.Body.List {
-					if ss, ok := c.(*ast.CommClause).Comm.(*ast.SendStmt); ok && strings.HasSuffix(src(ss.Chan), ".opChan") {
-						sendsInGuardedSelect++
-					}
-				}
-			}
-			return true
-		})
-	}
-	g.def("hub_closesOfOpChan", "Nat", fmt.Sprint(closesOp), "number of close(….opChan) calls in hub.go")
-	g.def("hub_bareSends", "Nat", fmt.Sprint(sendsTotal-sendsInGuardedSelect), "sends on opChan that are not a case of a select that also has `<-hub.done`")
-	enqOK := false
-	if henq != nil && len(henq.Body.List) == 1 {
-		if sel, ok := henq.Body.List[0].(*ast.SelectStmt); ok && len(sel.Body.List) == 2 && selectHasRecv(sel, "hub.done") != nil {
+		if len(sels) == 1 && !hw.unknown {
+			l := sels[0]
+			sel := l.st.(*ast.SelectStmt)
+			var closed []string
+			leaves := false
+			nOther := 0
 			for _, c := range sel.Body.List {
-				if ss, ok := c.(*ast.CommClause).Comm.(*ast.SendStmt); ok && src(ss.Chan) == "hub.opChan" {
-					enqOK = true
+				cc := c.(*ast.CommClause)
+				if cc.Comm != nil && hp.isDoneRecv(cc.Comm, l.env) {
+					for _, b := range cc.Body {
+						if f, ok := sdIsClose(b); ok {
+							closed = append(closed, f)
+							continue
+						}
+						// a same-package unexported helper called as a statement (`hub.stop()`): its closes count
+						// as if inlined (straight-line helper bodies only; anything else in it is not looked at here)
+						if es, ok := b.(*ast.ExprStmt); ok {
+							if ce, ok := es.X.(*ast.CallExpr); ok {
+								if fd, _ := hp.helper(ce); fd != nil && fd.Body != nil {
+									for _, hb := range fd.Body.List {
+										if f, ok := sdIsClose(hb); ok {
+											closed = append(closed, f)
+										}
+									}
+								}
+							}
+						}
+					}
+					// the case must leave Start's loop: return, or a break labelled with the outermost loop
+					switch hp.clauseEffectLast(cc.Body, l.loops) {
+					case "return", "breakLoop":
+						leaves = true
+					}
+					continue
+				}
+				nOther++
+				if ch := rtRecvChan(cc.Comm); cc.Comm != nil && ch != nil {
+					opField = sdChanField(ch)
+				}
+			}
+			if nOther == 1 && opField != "" && leaves && len(closed) == 1 && closed[0] != "" {
+				if closed[0] == opField {
+					onCancel = "closesOpChan"
+				} else {
+					onCancel, doneField = "closesDone", closed[0]
 				}
 			}
 		}
 	}
-	g.def("hub_enqueueSelectsDone", "Bool", shutLeanBool(enqOK), "enqueue is exactly `select { case hub.opChan <- op: case <-hub.done: }`")
-	syncOK := false
-	if hsync != nil {
-		bare, guarded := 0, 0
-		inSelect := map[ast.Node]bool{}
-		ast.Inspect(hsync.Body, func(x ast.Node) bool {
-			// only the statements of Sync itself, not of the closure it enqueues
-			if _, ok := x.(*ast.FuncLit); ok {
-				return false
-			}
-			if sel, ok := x.(*ast.SelectStmt); ok {
-				if selectHasRecv(sel, "hub.done") != nil && !selectHasDefault(sel) {
-					guarded++
-				} else {
-					bare++
-				}
-				for _, c := range sel.Body.List {
-					if cm := c.(*ast.CommClause).Comm; cm != nil {
-						inSelect[cm] = true
+	g.def("hub_onCancel", "String", leanStr(onCancel), "what Hub.Start does in the `<-ctx.Done()` case of its loop's select before leaving: closesOpChan = closes the field the other case receives operations from; closesDone = closes another channel field (the done channel); unknown")
+	closesOp, sendsTotal, sendsGuarded := 0, 0, 0
+	producersOK, producers := true, 0
+	producerNames := map[string]bool{}
+	if opField == "" {
+		closesOp, sendsTotal, producersOK = 999, 999, false
+	} else {
+		for _, f := range hp.files {
+			ast.Inspect(f, func(x ast.Node) bool {
+				switch v := x.(type) {
+				case *ast.CallExpr:
+					if id, ok := v.Fun.(*ast.Ident); ok && id.Name == "close" && id.Obj == nil && len(v.Args) == 1 && sdChanField(v.Args[0]) == opField {
+						closesOp++
+					}
+				case *ast.SendStmt:
+					if sdChanField(v.Chan) == opField {
+						sendsTotal++
+					}
+				case *ast.SelectStmt:
+					if sdSelectGuarded(v, doneField) {
+						for _, c := range v.Body.List {
+							if ss, ok := c.(*ast.CommClause).Comm.(*ast.SendStmt); ok && sdChanField(ss.Chan) == opField {
+								sendsGuarded++
+							}
+						}
 					}
 				}
-			}
-			if es, ok := x.(*ast.ExprStmt); ok && !inSelect[es] {
-				if u, ok := es.X.(*ast.UnaryExpr); ok && u.Op == token.ARROW {
-					bare++
+				return true
+			})
+		}
+		// the producers: every function that sends on the operation channel
+		for _, fds := range hp.funcs {
+			for _, fd := range fds {
+				n := 0
+				ast.Inspect(fd.Body, func(x ast.Node) bool {
+					if ss, ok := x.(*ast.SendStmt); ok && sdChanField(ss.Chan) == opField {
+						n++
+					}
+					return true
+				})
+				if n == 0 {
+					continue
+				}
+				producers++
+				producerNames[fd.Name.Name] = true
+				pw := rtWalkBody(hp, fd.Body, nil)
+				ws := hp.waits(pw.leaves, nil)
+				ok := len(ws) == 1 && ws[0].kind == "select" && len(ws[0].leaf.pc) == 0 && len(ws[0].leaf.loops) == 0 && !pw.unknown
+				if ok {
+					sel := ws[0].sel
+					ok = len(sel.Body.List) == 2 && sdSelectGuarded(sel, doneField)
+					sends := 0
+					for _, c := range sel.Body.List {
+						if ss, isSend := c.(*ast.CommClause).Comm.(*ast.SendStmt); isSend && sdChanField(ss.Chan) == opField {
+							sends++
+						}
+					}
+					ok = ok && sends == 1
+				}
+				if !ok {
+					producersOK = false
 				}
 			}
-			if _, ok := x.(*ast.SendStmt); ok && !inSelect[x] {
+		}
+		if producers == 0 {
+			producersOK = false
+		}
+	}
+	g.def("hub_closesOfOpChan", "Nat", fmt.Sprint(closesOp), "close(<operation channel field>) calls in package msghub (the field Hub.Start receives operations from)")
+	g.def("hub_bareSends", "Nat", fmt.Sprint(sendsTotal-sendsGuarded), "sends on the operation channel that are not a case of a default-less select that also receives from the done channel")
+	g.def("hub_enqueueSelectsDone", "Bool", shutLeanBool(producersOK), "every function that sends on the operation channel has exactly one blocking operation: an unconditional two-case select { send on the operation channel; receive from the done channel }")
+	syncOK := false
+	if hsync != nil && doneField != "" {
+		yw := rtWalkBody(hp, hsync.Body, nil)
+		ws := hp.waits(yw.leaves, nil)
+		// the producer's own select is seen too when Sync calls it (helpers are followed): every wait must be a guarded select
+		guarded, bare, own := 0, 0, 0
+		for _, wt := range ws {
+			if wt.kind == "select" && sdSelectGuarded(wt.sel, doneField) {
+				guarded++
+				if wt.leaf.owner == 0 {
+					own++
+				}
+			} else {
 				bare++
 			}
-			return true
-		})
-		syncOK = guarded == 1 && bare == 0 && countCalls(hsync.Body, "hub.enqueue") == 1
+		}
+		enq := 0
+		for _, l := range yw.leaves {
+			if l.owner != 0 {
+				continue
+			}
+			for _, ce := range rtCalls(l.scope()) {
+				if fd, _ := hp.helper(ce); fd != nil && producerNames[fd.Name.Name] {
+					enq++
+				}
+			}
+		}
+		syncOK = bare == 0 && own == 1 && enq == 1 && guarded == 2 && !yw.unknown
 	}
-	g.def("hub_syncSelectsDone", "Bool", shutLeanBool(syncOK), "Sync enqueues through enqueue and then waits in a select that has `<-hub.done`")
+	g.def("hub_syncSelectsDone", "Bool", shutLeanBool(syncOK), "Sync hands its operation to a producer function once and then waits in one default-less select that also receives from the done channel; it has no other blocking operation")
 
-	// ---- retention scanner
-	rf := parse("pkg/storage/retention.go")
-	rstart := fn(rf, "RetentionScanner", "Start")
-	rscan := fn(rf, "RetentionScanner", "DoScan")
-	rjoin := fn(rf, "RetentionScanner", "Join")
+	// ---- retention scanner (analysis shared with retention.go)
+	r := rtAnalyseRetention()
+	all := append(append([]rtWait{}, r.startWaits...), r.doScanWaits...)
 	selects, withDone, outside := 0, 0, 0
 	var branches []string
-	known := rstart != nil && rscan != nil
-	for _, f := range []*ast.FuncDecl{rstart, rscan} {
-		if f == nil {
+	for _, wt := range all {
+		if wt.kind != "select" {
+			outside++
 			continue
 		}
-		inSelect := map[ast.Node]bool{}
-		ast.Inspect(f.Body, func(x ast.Node) bool {
-			switch v := x.(type) {
-			case *ast.SelectStmt:
-				selects++
-				cc := selectHasRecv(v, "ctx.Done()")
-				if cc != nil {
-					withDone++
-					last := "(empty)"
-					for _, b := range cc.Body {
-						last = strings.Join(strings.Fields(src(b)), " ")
-					}
-					branches = append(branches, last)
-				}
-				for _, c := range v.Body.List {
-					if cm := c.(*ast.CommClause).Comm; cm != nil {
-						inSelect[cm] = true
-						// the receive expression itself is visited below as a child: mark it
-						ast.Inspect(cm, func(y ast.Node) bool {
-							if u, ok := y.(*ast.UnaryExpr); ok && u.Op == token.ARROW {
-								inSelect[u] = true
-							}
-							return true
-						})
-					}
-				}
-			case *ast.UnaryExpr:
-				if v.Op == token.ARROW && !inSelect[v] {
-					outside++
-				}
-			case *ast.SendStmt:
-				if !inSelect[v] {
-					outside++
-				}
-			case *ast.CallExpr:
-				switch src(v.Fun) {
-				case "time.Sleep":
-					outside++
-				}
-				if se, ok := v.Fun.(*ast.SelectorExpr); ok && (se.Sel.Name == "Wait" || se.Sel.Name == "Join") {
-					outside++
-				}
-			}
-			return true
-		})
+		selects++
+		if wt.doneExit != "none" {
+			withDone++
+			branches = append(branches, wt.doneExit)
+		}
 	}
-	if !known {
+	if !r.found || !r.flowRecognised {
 		outside = 999
 	}
-	g.def("ret_selects", "Nat", fmt.Sprint(selects), "select statements in RetentionScanner.Start and DoScan")
-	g.def("ret_selectsWithDone", "Nat", fmt.Sprint(withDone), "… of which have a `case <-ctx.Done():`")
-	g.def("ret_blockingOutsideSelect", "Nat", fmt.Sprint(outside), "channel receives/sends outside a select, time.Sleep, Wait/Join calls in Start and DoScan")
-	g.def("ret_doneBranches", "List String", strList(branches), "last statement of each `case <-ctx.Done():` branch, in source order (Start, then DoScan)")
-	closes := 0
-	if rstart != nil {
-		ast.Inspect(rstart.Body, func(x ast.Node) bool {
-			if ce, ok := x.(*ast.CallExpr); ok && src(ce.Fun) == "close" && len(ce.Args) == 1 && src(ce.Args[0]) == "rs.retentionShutdown" {
-				closes++
-			}
-			return true
-		})
-	}
-	g.def("ret_closesShutdown", "Nat", fmt.Sprint(closes), "close(rs.retentionShutdown) calls in Start (disabled path + end of loop)")
-	jw := false
-	if rjoin != nil {
-		n, other := 0, 0
-		ast.Inspect(rjoin.Body, func(x ast.Node) bool {
-			if u, ok := x.(*ast.UnaryExpr); ok && u.Op == token.ARROW {
-				if src(u.X) == "rs.retentionShutdown" {
-					n++
-				} else {
-					other++
-				}
-			}
-			return true
-		})
-		jw = n == 1 && other == 0
-	}
-	g.def("ret_joinWaitsShutdown", "Bool", shutLeanBool(jw), "Join blocks on `<-rs.retentionShutdown` only")
+	g.def("ret_selects", "Nat", fmt.Sprint(selects), "select statements in RetentionScanner.Start and DoScan (visitor callback and unexported helpers followed)")
+	g.def("ret_selectsWithDone", "Nat", fmt.Sprint(withDone), "… of which have a case receiving from <context.Context parameter>.Done()")
+	g.def("ret_blockingOutsideSelect", "Nat", fmt.Sprint(outside), "channel receives / sends outside a select, time.Sleep, Wait / Join / Lock calls in Start and DoScan (999: functions not found or control flow not understood)")
+	g.def("ret_doneBranches", "List String", strList(branches), "what each ctx.Done() case does, logging aside, in source order (Start, then DoScan): breakLoop = break labelled with Start's outermost loop | returnFalse | return | fallsThrough | breakSelect | other")
+	g.def("ret_closesShutdown", "Nat", fmt.Sprint(r.closesOfJoinChan), "close(<channel field Join receives from>) calls in Start")
+	jw := len(r.joinWaits) == 1 && r.joinWaits[0] == "recvField" && r.disablePath == "closeJoinChanThenReturn" && r.afterLoop == "closeJoinChan"
+	g.def("ret_joinWaitsShutdown", "Bool", shutLeanBool(jw), "Join's only blocking operation is a receive from a scanner field, and Start closes that very field on the disabled path (before returning) and after its loop")
 }
